@@ -184,9 +184,9 @@ Definition set_w s i b r := mkH (st s) (pos s) (buf s) (rpos s) (inc s) (pol s) 
 
 Definition set_ghost s n d := mkH (st s) (pos s) (buf s) (rpos s) (inc s) (pol s) (crypto s) (lenia s) (dvalid s) (didx s) (encr s) (dl s) (extp s) (exti s) (bfe s) (recog s) (aok s) (wlog s) (wint s) (wbf s) (rdone s) n d.
 (* bytes arriving from the socket *)
-Definition add_cells s (c : list cell) := set_ghost (set_win s (pos s) (buf s ++ c)) (nread s + length c) (dstart s).
+Definition add_cells s (c : list cell) := mkH (st s) (pos s) (buf s ++ c) (rpos s) (inc s) (pol s) (crypto s) (lenia s) (dvalid s) (didx s) (encr s) (dl s) (extp s) (exti s) (bfe s) (recog s) (aok s) (wlog s) (wint s) (wbf s) (rdone s) (nread s + length c) (dstart s).
 (* initialize_decrypt: the cipher starts at the byte now at position() *)
-Definition start_dec s (e : bool) := set_ghost (set_dec s true 0 e) (nread s) (nread s - length (buf s)).
+Definition start_dec s (e : bool) := mkH (st s) (pos s) (buf s) (rpos s) (inc s) (pol s) (crypto s) (lenia s) true 0 e (dl s) (extp s) (exti s) (bfe s) (recog s) (aok s) (wlog s) (wint s) (wbf s) (rdone s) (nread s) (nread s - length (buf s)).
 (* EncryptionInfo::decrypt(position + a, n) *)
 Definition dec_range s (a n : nat) :=
   let b := buf s in
